@@ -274,7 +274,8 @@ def run_c01(rep):
 PROPS = {
     "C02": dict(
         theorems=[T + "choose_out_of_range_noop", T + "doChoose_history", T + "undo_choose", T + "doChoose_used", T + "isAvail_used",
-                  T + "offerChoices_sec", T + "offerChoices_avail", T + "offerChoices_subset"],
+                  T + "offerChoices_sec", T + "offerChoices_avail", T + "offerChoices_subset", T + "renderPassage_sec",
+                  T + "renderFromJoinMarker_sec"],
         run=run_c02,
         rule="stories from the typed generator (conditional / one-time / block / join choices), random walks with "
              "indices drawn from [-2, n+7]; distinct by hash of (source, ops); non-trivial = at least one accepted "
@@ -446,7 +447,8 @@ PROPS = {
                    "referenced ∧ undefined, and @join is never a reference",
     ),
     "C12": dict(
-        theorems=[T + "bind_eq_pyCall", T + "validated_bind_never_missing", T + "pyCall_of_valid", T + "renderPassage_in_graph", T + "tokenKinds_covered"],
+        theorems=[T + "bind_eq_pyCall", T + "validated_bind_never_missing", T + "pyCall_of_valid", T + "renderPassage_in_graph", T + "tokenKinds_covered",
+                  T + "wfAll_offered_target_exists", T + "wfAll_jump_target_exists", T + "compileStory_keys", T + "compileStory_initial"],
         run=run_c12,
         rule="every story the real compiler accepts among generated sources (45 % with one call site corrupted: unknown "
              "target, surplus / unknown / missing / duplicate argument, at top level or nested in a block) and the "
@@ -454,7 +456,10 @@ PROPS = {
              "Python's ast + call rule independently, navigation errors in play; model predicates wfTop / wfAll compared",
         level_text="proof for validated (top-level) call sites: a site accepted by the validator can never raise a "
                    "missing/surplus/unknown/duplicate-argument error (bind_eq_pyCall, validated_bind_never_missing), and all "
-                   "targets a play can reach are statically visible sites (renderPassage_in_graph); sites nested in blocks "
+                   "targets a play can reach are statically visible sites (renderPassage_in_graph); wfAll_offered_target_exists / "
+                   "wfAll_jump_target_exists — in a story whose call sites at EVERY depth are valid, every choice a passage can "
+                   "ever offer and every jump a rendering reports names an existing passage (or is -> @join), for every state and "
+                   "author code; compileStory_keys / _initial (keys = ids, the initial passage exists); sites nested in blocks "
                    "are not validated by the compiler — recorded finding C12-F1 — so the navigation-safety clause is decided "
                    "by the oracle, which accepts exactly that class",
     ),
@@ -511,7 +516,8 @@ PROPS = {
         theorems=["Bardic.Parser." + t for t in ["extractPassageParams_ok", "extractTargetAndArgs_ok", "parsePassageParams_ok",
                                                   "validatePassageName_ok", "scanBrackets_ok", "multiline_ok", "pyNew_ok",
                                                   "pyOld_consumed", "findClose_bound", "parseContentLine_terminates", "contentLine_fuel",
-                                                  "splitExprs_length", "parseTags_length"]] + [T + "loopPaths_advance"],
+                                                  "splitExprs_length", "parseTags_length", "validateChoice_ok", "condScan_ok",
+                                                  "bracketStage_ok"]] + [T + "loopPaths_advance"],
         run=run_c11,
         rule="(a) line sequences (1-6, thorough 1-8 lines plus continuations) over a vocabulary of ~330 valid and broken forms "
              "of every kind of line (headers, text with braces / inline conditionals, ~ statements with open brackets, "
@@ -540,8 +546,8 @@ PROPS = {
     "C01": dict(
         theorems=[T + t for t in ["renderExpr_ref", "renderTok_inl", "renderToks_inls", "renderToks_attachTags", "render_line",
                                   "render_cItem", "render_cItems", "render_cBranches", "renderChoiceTexts_ref", "render_top",
-                                  "compilePassage_execute", "cleanup_spec", "cleanup_noCond", "trimTrailing_prefix",
-                                  "renderToks_append", "read_noop"]],
+                                  "compilePassage_execute", "compilePassage_content", "mergeTexts_text", "cleanup_spec", "cleanup_noCond",
+                                  "trimTrailing_prefix", "renderToks_append", "read_noop"]],
         run=run_c01,
         rule="source ASTs from the typed generator (parameters; content lines of text / {expr} / {expr:spec} / {c ? a | b} parts with "
              "tags, glue, trailing comments, escaped slashes, apostrophes; blank lines; # comments; ~ statements; @py blocks; "
